@@ -31,7 +31,7 @@ TOW = [("west_mast", 50.001, 10.002, 5.0), ("hill_top", 50, 10.0005, 7), ("east_
 
 
 def lattice(tier):
-    for nt, ns, threed, vc, dt, ts, forcing in itertools.product((1, 2, 3, 4), (1, 2, 3, 4), (False, True), ("index", "negative", "denormal", "huge", "simple-flx", "near-max"), ("float64", "float32"), ("iso", "index", "width", "epoch"), ("ustar", "z0-list", "z0-scalar")):
+    for nt, ns, threed, vc, dt, ts, forcing in itertools.product((1, 2, 3, 4), (1, 2, 3, 4), (False, True), ("index", "negative", "denormal", "huge", "simple-flx", "near-max"), ("float64", "float32"), ("iso", "index", "width", "epoch", "repeated"), ("ustar", "z0-list", "z0-scalar")):
         if forcing == "z0-scalar" and ns != 1:
             continue
         if tier == "quick" and vc != "index" and not (nt in (1, 3) and ns in (1, 2)):
@@ -69,6 +69,10 @@ def build(case):
     elif case["ts"] == "width":
         # labels of different printed widths, narrowest first (integers crossing a power of ten, mixed date / date-time strings)
         met["timestamps"] = ([8, 9, 10, 11, 12, 13] if case["nt"] % 2 else ["9:30", "10:00", "2024-03-01", "2024-03-01T10:00", "x", "y"])[:ns]
+    elif case["ts"] == "repeated":
+        # the same label on two steps with different forcing (the repeated hour of a night the clocks go back; a logger that
+        # stamps whole minutes): positions, not labels, say which record is which
+        met["timestamps"] = (["2024-10-27T02:00", "2024-10-27T02:30", "2024-10-27T02:00", "2024-10-27T02:30", "2024-10-27T03:00", "2024-10-27T03:00"] if case["nt"] % 2 else [7, 7, 8, 8, 8, 9])[:ns]
     elif case["ts"] == "epoch":
         # numeric labels with many significant digits: seconds since 1970 (integers), fractional day numbers (floats)
         met["timestamps"] = ([1709272800, 1709274600, 1709276400, 1709278200, 1709280000, 1709281800] if case["nt"] % 2 else [20240301.25, 20240301.5, 20240301.75, 20240302.0, 20240302.25, 20240302.5])[:ns]
@@ -178,6 +182,8 @@ def _compare_loaded(ds, cfg, res, x, y, zl, threed, bad):
                     got = ds[var].values[s, ti]
                     if got.shape != want.shape or not np.array_equal(got, want):
                         bad("payload", "%s[time %d, tower %d] differs from the saved %s (max |diff| %s)" % (var, s, ti, key, np.max(np.abs(got - want)) if got.shape == want.shape else "shape %s vs %s" % (got.shape, want.shape)))
+                    if labels.count(labels[s]) > 1:
+                        continue  # a label carried by several steps does not select one of them
                     got2 = ds[var].sel(tower=t.name).sel(time=labels[s]).values
                     if got2.shape != want.shape or not np.array_equal(got2, want):
                         bad("select", "%s.sel(tower=%r, time=%r) does not return that tower's and step's field" % (var, t.name, labels[s]))
